@@ -291,7 +291,10 @@ fn strategy_name(p: &ExecPlan) -> String {
     format!("{s}+{c}")
 }
 
-const DISTINCT_CAP: usize = 3_000_000;
+/// Per-worker bound on the set of case hashes kept for the distinct count.
+const DISTINCT_CAP: usize = 4_000_000;
+/// Bound on the merged set (16 workers x 4M).
+const DISTINCT_CAP_MERGED: usize = 70_000_000;
 
 /// Runs executions on the calling OS thread until the run indices are used
 /// up (returns `true`) or an execution ends in a panic (returns `false`: the
@@ -439,7 +442,7 @@ fn merge_ws(mut a: WorkerStats, b: WorkerStats) -> WorkerStats {
     a.evaluations += b.evaluations;
     a.nontrivial += b.nontrivial;
     for h in b.distinct {
-        if a.distinct.len() < DISTINCT_CAP {
+        if a.distinct.len() < DISTINCT_CAP_MERGED {
             a.distinct.insert(h);
         } else {
             a.distinct_overflow += 1;
@@ -607,7 +610,7 @@ pub fn check<P: Prop>(o: &CheckOpts) -> i32 {
     let mut coverage = json!({
         "evaluations": total.evaluations,
         "distinct_nontrivial": distinct,
-        "distinct_nontrivial_note": format!("exact up to {} per worker merge; {} further non-trivial cases not deduplicated (not counted)", DISTINCT_CAP, total.distinct_overflow),
+        "distinct_nontrivial_note": format!("exact up to {} hashes per worker and {} merged; {} further non-trivial cases were not deduplicated and are not counted", DISTINCT_CAP, DISTINCT_CAP_MERGED, total.distinct_overflow),
         "rule": P::rule(),
         "samples": samples,
         "exhaustive": false,
